@@ -30,7 +30,8 @@ KIND_SETS = [["evaluate"], ["compute"], ["assemble"], ["assemble", "compute"],
 RULE = (
     "Each evaluation is one pair of fresh interpreters over a pool of 3-7 problems (fixed "
     "catalogue and the seeded grammar of engine K, plus variants that differ only in a mode "
-    "ordering, only in tensor names or only in index names): the baseline runs every distinct "
+    "ordering, only in tensor names, only in index names or only in the numeric type of one "
+    "literal): the baseline runs every distinct "
     "request once under PYTHONHASHSEED=0, the variant runs a history of 25-60 requests "
     "{generate_code, CLI to stdout / -o with permuted -f and omitted dense formats, "
     "tensor_method with formats in some dict order, private cache entry with formats in another "
